@@ -228,6 +228,19 @@ theorem styleAttrs_notKeyword (c : RenderCtx) (j : Nat) : ∀ kv ∈ styleAttrs 
       subst h
       simp
 
+/-- a bracketed attribute list whose keys are not keywords -/
+theorem parseAttrList_attrs (as : List (String × String)) (hk : ∀ kv ∈ as, isKeyword kv.1.toList = false)
+    {f : Nat} {rest : List Tok}
+    (hf : (attrToks as).length + 1 ≤ f) (h2 : ∀ f', parseAttrList f' rest = some ([], rest)) :
+    parseAttrList f (Tok.lbrack :: (attrToks as ++ Tok.rbrack :: rest)) =
+      some (as.map fun kv => (kv.1.toList, kv.2.toList), rest) := by
+  obtain ⟨f', rfl⟩ : ∃ f', f = f' + 1 := ⟨f - 1, by omega⟩
+  have := length_le_attrToks as
+  exact parseAttrList_one (parseAList_attrToks _ hk f' rest (by omega)) (h2 f')
+
+theorem holderAttrs_notKeyword : ∀ kv ∈ holderAttrs, isKeyword kv.1.toList = false := by
+  unfold holderAttrs; decide
+
 /-- the attribute list of a node or of a cluster -/
 theorem parseAttrList_style (c : RenderCtx) (j : Nat) {f : Nat} {rest : List Tok}
     (hf : (attrToks (styleAttrs c j)).length + 1 ≤ f) (h2 : ∀ f', parseAttrList f' rest = some ([], rest)) :
